@@ -27,6 +27,7 @@ theorems), never on the implementation's output:
 """
 import itertools
 import json
+import os
 import signal
 import time
 
@@ -38,6 +39,7 @@ from harness.sexp import Sym
 CASE_TIMEOUT = {"quick": 150, "thorough": 400}
 MAX_LANG = {"quick": 1500, "thorough": 6000}
 IMPL_LIMIT = 12           # seconds for one constructor call of the implementation
+LOOP_LIMIT = 2            # ... of at_most_k when no ranking of the types exists (region of C13-F9: it may not return)
 FUEL = 400000
 
 
@@ -192,11 +194,86 @@ class Terms:
 
     def up_to_occ(self, name, k, limit=10 ** 9):
         out = []
-        for u in range(k + 1):
-            out += self.by_occ(name, u, limit=limit)
-            if len(out) > limit:
-                raise TooLarge()
-        return out
+        try:
+            for u in range(k + 1):
+                out += self.by_occ(name, u, limit=limit)
+                if len(out) > limit:
+                    raise TooLarge()
+            return out
+        except Infinite:
+            # by_occ gives up on ANY recursion that spends no occurrence; decide finiteness exactly
+            self._occ, self._busy = {}, set()
+            return self.up_to_occ_exact(name, k, limit)
+
+    # ---- exact: regular tree grammar over the keys (occurrences, type, forbidden set)
+    def _occ_alts(self, name, key):
+        u, ty, fb = key
+        for h, a in self.heads(ty, fb):
+            c = 1 if _head_str(h) == name else 0
+            if c > u:
+                continue
+            for split in itertools.product(range(u - c + 1), repeat=len(a)):
+                if sum(split) == u - c:
+                    yield h, [(use, at, self.forb((h[1], i))) for i, (use, at) in enumerate(zip(split, a))]
+
+    def up_to_occ_exact(self, name, k, limit=10 ** 9):
+        """the terms with at most k occurrences when there are finitely many (Infinite otherwise): keys that
+        derive no term are pruned first (an unproductive recursion does not make the language infinite), then
+        the language is infinite iff a cycle of productive keys is reachable from the start keys"""
+        roots = [(u, self.ret, self.forb(None)) for u in range(k + 1)]
+        universe, todo = set(roots), list(roots)
+        alts = {}
+        while todo:
+            key = todo.pop()
+            alts[key] = list(self._occ_alts(name, key))
+            for _, kids in alts[key]:
+                for kk in kids:
+                    if kk not in universe:
+                        universe.add(kk)
+                        todo.append(kk)
+        inh, changed = set(), True
+        while changed:
+            changed = False
+            for key in universe:
+                if key not in inh and any(all(kk in inh for kk in kids) for _, kids in alts[key]):
+                    inh.add(key)
+                    changed = True
+        useful = {key: [(h, kids) for h, kids in alts[key] if all(kk in inh for kk in kids)] for key in inh}
+        state = {}
+
+        def cyclic(key):
+            if state.get(key) == 1:
+                return True
+            if state.get(key) == 2:
+                return False
+            state[key] = 1
+            for _, kids in useful[key]:
+                if any(cyclic(kk) for kk in kids):
+                    return True
+            state[key] = 2
+            return False
+        if any(cyclic(r) for r in roots if r in inh):
+            raise Infinite()
+        memo = {}
+
+        def enum(key):
+            if key in memo:
+                return memo[key]
+            out = []
+            for h, kids in useful[key]:
+                for combo in itertools.product(*[enum(kk) for kk in kids]):
+                    out.append((h, list(combo)))
+                    if len(out) > limit:
+                        raise TooLarge()
+            memo[key] = out
+            return out
+        res = []
+        for r in roots:
+            if r in inh:
+                res += enum(r)
+                if len(res) > limit:
+                    raise TooLarge()
+        return res
 
 
 def _head_str(h):
@@ -686,6 +763,70 @@ def reachable_part(w):
     return [w[0], w[1], [e for e in w[2] if json.dumps(e[0]) in keep]]
 
 
+# ----------------------------------------------------------------------------- at_most_k: termination
+def uncounted_ranking(dsl, name):
+    """a ranking of the types (wire, rank) certifying PS.T.uncountedRanked - every primitive other than
+    `name` takes, at every slot (partial applications included), only arguments of smaller rank - or None
+    when the dependency graph of the types through those primitives has a cycle (then no certificate
+    exists: the classifier of finding C13-F9)"""
+    from synth.syntax.type_system import Arrow
+    edges, wires = {}, {}
+
+    def key(t):
+        w = W.ty_wire(t)
+        k = json.dumps(_plain(w))
+        wires[k] = w
+        edges.setdefault(k, set())
+        return k
+    for p in dsl.list_primitives:
+        if str(p) == name:
+            continue
+        t, acc = p.type, []
+        while True:
+            k = key(t)
+            edges[k].update(key(a) for a in acc)
+            if isinstance(t, Arrow):
+                acc = acc + [t.type_in]
+                t = t.type_out
+            else:
+                break
+    rank, state = {}, {}
+
+    def visit(k):
+        if state.get(k) == 1:
+            raise Infinite()
+        if k in rank:
+            return rank[k]
+        state[k] = 1
+        r = 0
+        for m in edges[k]:
+            r = max(r, visit(m) + 1)
+        state[k] = 2
+        rank[k] = r
+        return r
+    try:
+        for k in list(edges):
+            visit(k)
+    except Infinite:
+        return None
+    return [[wires[k], r] for k, r in sorted(rank.items()) if r > 0]
+
+
+_OPEN = []
+
+
+def open_findings():
+    """ids of the open known findings (a finding is only attached to a failure once the integrator has
+    registered it; until then the symptom stays an inconclusive, tagged time-out)"""
+    if not _OPEN:
+        path = os.path.join(os.path.dirname(os.path.dirname(os.path.abspath(__file__))), "known_findings.json")
+        try:
+            _OPEN.append({k["id"] for k in json.load(open(path))["findings"] if k.get("status") == "open"})
+        except Exception:
+            _OPEN.append(set())
+    return _OPEN[0]
+
+
 # ----------------------------------------------------------------------------- variants
 _VARIANT = {}
 
@@ -859,9 +1000,24 @@ def check_single(case, M, rng):
         return _result(case, key, tags + ["too-large"], [])
     prim_objs = {(p.primitive, W.repo_tt(p.type)): p for p in dsl.list_primitives}
     # ---- implementation
+    ranked = None
+    if kind == "atmost":
+        # hypothesis of C13_atmost_total_partial: a ranking of the types, checked by the Lean predicate
+        rk = uncounted_ranking(dsl, spec["name"])
+        ranked = rk is not None and M.ask([Sym("c13.ranked"), dsl_wire(dsl, forb), spec["name"], rk]) == "1"
+        if rk is not None and not ranked:
+            raise RuntimeError("the ranking computed by the harness is rejected by PS.T.uncountedRanked")
+        tags.append("atmost-ranked" if ranked else "atmost-unranked(C13-F9 region)")
+    limit_c = LOOP_LIMIT if kind == "atmost" and not ranked else IMPL_LIMIT
     try:
-        g = limited(IMPL_LIMIT, lambda: build_impl(dsl, tr, spec, ng))
+        g = limited(limit_c, lambda: build_impl(dsl, tr, spec, ng))
     except ImplTimeout:
+        if kind == "atmost" and not ranked and "C13-F9" in open_findings():
+            # termination is what the statement presupposes: the language is finite (the oracle enumerated it)
+            return _result(case, key, tags + ["timeout"], [{
+                "kind": "oracle", "what": "the constructor does not return although the language is finite",
+                "detail": f"at_most_k(.., {spec['name']!r}, {spec['k']}) cut after {limit_c} s; the language has {len(members)} programs",
+                "finding": "C13-F9"}])
         return _result(case, key, tags + ["timeout", "timeout-constructor(finite language)"], [])
     except RecursionError:
         return _result(case, key, tags + ["timeout", "recursion-constructor"], [])
@@ -1074,8 +1230,10 @@ def check_mul(case, M, rng):
             except TooLarge:
                 return _result(case, key, tags + ["too-large"], [])
     try:
-        g1 = limited(IMPL_LIMIT, lambda: build_impl(dsl, tr, case["left"], ng))
-        g2 = limited(IMPL_LIMIT, lambda: build_impl(dsl2, tr, case["right"], ng))
+        def lim(d, sp):
+            return LOOP_LIMIT if sp["kind"] == "atmost" and uncounted_ranking(d, sp["name"]) is None else IMPL_LIMIT
+        g1 = limited(lim(dsl, case["left"]), lambda: build_impl(dsl, tr, case["left"], ng))
+        g2 = limited(lim(dsl2, case["right"]), lambda: build_impl(dsl2, tr, case["right"], ng))
     except (ImplTimeout, RecursionError):
         return _result(case, key, tags + ["timeout", "timeout-factor"], [])
     except KeyError:
@@ -1227,6 +1385,12 @@ def corpus():
     # C13-F5 (open): later argument without inhabitant
     out.append(dict(base, prims=[["f", A("a", "b", "c")], ["x", "a"], ["k", "c"]], forbidden=[], request="c", n_gram=2,
                     mode="size", spec={"kind": "size", "max_size": 4}))
+    # C13-F9 (proposed): finite language, but a recursive primitive can be derived without spending an occurrence:
+    # the constructor does not return (cut after IMPL_LIMIT seconds)
+    out.append(dict(base, prims=[["g", A("a", "a", "a")], ["l", "a"]], forbidden=[], request="a", n_gram=2,
+                    mode="atmost", spec={"kind": "atmost", "name": "l", "k": 1}))
+    out.append(dict(base, prims=[["f", A("a", "c")], ["g", A("a", "a", "a")], ["k", "c"]], forbidden=[], request="c", n_gram=2,
+                    mode="atmost", spec={"kind": "atmost", "name": "k", "k": 1}))
     # C13-F6: empty language, programs() = 1
     out.append(dict(base, prims=[["f", A("a", "c")], ["x", "b"]], forbidden=[], request="c", n_gram=2,
                     mode="size", spec={"kind": "size", "max_size": 3}))
